@@ -39,7 +39,8 @@ FIXED = [c for c in FIXED if "placeholder" not in c]
 
 def run(ctx):
     ctx.level = "proof"
-    res = ctx.prove()
+    res = ctx.prove()      # Properties_C15.v and Properties_C15_bytes.v (resume through the actual file bytes)
+    ctx.cov["trusted_base"] = ctx.cov.get("trusted_base", []) + ["Properties_C15_bytes.v additionally rests on the io engine's file-format model Msgpack/FileFormat.v and its round-trip theorems (C13)"]
     model = pv.build_ocaml("optim")
     impl = pv.build_harness("plain", "opt_drv")
     cases, dist = gen_cases(ctx)
@@ -156,7 +157,7 @@ def run(ctx):
     cov["exhaustive"] = False
     ctx.add_samples(cases[:2] + cases[len(FIXED):len(FIXED) + 3])
     ctx.assumptions += [
-        "Checkpoint.v abstracts the byte encoding of the two files to the record of the fields written (values and all statistics of every parameter of the model; Optimizer.epoch, lr_scale, l2_strength, clip_threshold and the class's hyper-parameters); the codec round trip is property C13",
+        "Checkpoint.v abstracts the byte encoding of the two files to the record of the fields written (values and all statistics of every parameter of the model; Optimizer.epoch, lr_scale, l2_strength, clip_threshold and the class's hyper-parameters); Properties_C15_bytes.v removes the abstraction by composing with the io engine's model of the actual bytes and its C13 round trips, under C13's hypotheses (sizes < 2^32, tensors < 2^30 elements, distinct paths, epoch < 2^32), all shown invariant under training; scalars enter there through an injective map to their binary32 words (Section variables bits/unbits)",
         "the training step is the documented loop reset_gradients -> forward/backward -> update, and the gradient is a function of the step number and the current parameter values (deterministic model); gradient buffers are not saved (load zeroes them), so a loop that accumulates gradients across update() calls is outside the theorem",
         "the program re-registers the same parameters with an optimizer of the same class; which parameters are registered and the class are not in the files",
         "iteration order of std::unordered_set<Parameter*> (new addresses after resume): C15_resume_equiv_any_iteration_order proves the equivalence for every permutation of the registered list, without laws on the scalars when clipping is off and assuming associative-commutative addition when it is on (the order only permutes the summation of the norm); hence the implementation is compared bitwise when clipping is off and within %g otherwise" % TOL_CLIP,
